@@ -16,3 +16,111 @@ R.DEFAULT_POLICIES["globals"].update({"state": "@State"})
 R.DEFAULT_POLICIES.update({
     "inline_snapshot._global_state.state": "global:state",
 })
+
+R.DEFAULT_POLICIES["globals"].update({"cmp_only": "Bool"})
+R.DEFAULT_POLICIES.update({
+    "inline_snapshot._compare_context.compare_only": "global:cmp_only",
+})
+
+# ---------------------------------------------------------------------------------------------
+# change events (yielded by _get_changes / assign generators) as value records
+
+import z3
+
+from pyvc.core import Unsupported, pack
+from pyvc.specs import val_term
+from pyvc.types import Abs, Obj, Opaque, SV, declare_record, parse_ty, sort_of, STR, INT
+
+declare_record("Chg", {"kind": STR, "flag": STR, "node": Abs("Node"), "old_value": Abs("Val"), "new_value": Abs("Val"),
+                       "code": Abs("Code"), "position": INT})
+declare_record("Item", {"value": Abs("Val"), "node": Abs("Node")})
+R.DEFAULT_POLICIES["trace_ty"] = "Chg"
+
+
+def _node_term(I, n):
+    if n is None:
+        return I.V.none_const(Abs("Node"))
+    if isinstance(n, SV) and n.ty == Abs("Node"):
+        return n.t
+    raise Unsupported(f"not a node: {n!r}")
+
+
+def _code_term(I, c):
+    if isinstance(c, SV) and c.ty == Abs("Code"):
+        return c.t
+    return z3.Const(I.ctx.fresh_name("somecode"), sort_of(Abs("Code")))
+
+
+def encode_change(I, v):
+    """A yielded Change dataclass instance -> Chg record (what the contracts talk about)."""
+    if isinstance(v, Obj) and v.rec is not None:
+        return v
+    if not isinstance(v, Obj):
+        raise Unsupported(f"yield of {v!r}")
+    kind = v.cls.rsplit(".", 1)[-1]
+    f = v.fields
+    chg = parse_ty("Chg")
+    node = f.get("node")
+    pos = f.get("position", f.get("arg_pos", 0))
+    rec = Obj("Chg", {
+        "kind": kind, "flag": f["flag"],
+        "node": SV(_node_term(I, node), Abs("Node")),
+        "old_value": SV(val_term(I, f.get("old_value", Ellipsis)), Abs("Val")) if not isinstance(f.get("old_value"), Opaque) else SV(z3.Const(I.ctx.fresh_name("ov"), sort_of(Abs("Val"))), Abs("Val")),
+        "new_value": SV(val_term(I, f.get("new_value", f.get("new_values", Ellipsis))), Abs("Val")) if not isinstance(f.get("new_value", f.get("new_values")), (Opaque,)) and not hasattr(f.get("new_value", f.get("new_values")), "items") else SV(z3.Const(I.ctx.fresh_name("nv"), sort_of(Abs("Val"))), Abs("Val")),
+        "code": SV(_code_term(I, f.get("new_code")), Abs("Code")),
+        "position": pos if pos is not None else -1,
+    }, rec=chg)
+    return rec
+
+
+R.DEFAULT_POLICIES["encode_event"] = encode_change
+
+# ---------------------------------------------------------------------------------------------
+# token / code abstraction:  value_to_token(v) = tokens_of(v);  _token_of_node(n) = node_tokens(n);
+# _token_to_code(t) = code_from(t)   (uninterpreted, deterministic; X2/X10 are about what they denote)
+
+_Toks = Abs("Toks")
+
+
+def _fn(name, *sorts):
+    return z3.Function(name, *[sort_of(s) for s in sorts])
+
+
+def p_value_to_token(I, args, kwargs, node):
+    return SV(_fn("tokens_of", Abs("Val"), _Toks)(val_term(I, args[0])), _Toks)
+
+
+def p_token_of_node(I, args, kwargs, node):
+    return SV(_fn("node_tokens", Abs("Node"), _Toks)(_node_term(I, args[-1])), _Toks)
+
+
+def p_token_to_code(I, args, kwargs, node):
+    t = args[-1]
+    if isinstance(t, SV) and t.ty == _Toks:
+        return SV(_fn("code_from", _Toks, Abs("Code"))(t.t), Abs("Code"))
+    return SV(z3.Const(I.ctx.fresh_name("code"), sort_of(Abs("Code"))), Abs("Code"))
+
+
+def s_code_of(I, v):
+    toks = _fn("tokens_of", Abs("Val"), _Toks)(val_term(I, v))
+    return SV(_fn("code_from", _Toks, Abs("Code"))(toks), Abs("Code"))
+
+
+def s_tokens_differ(I, node, v):
+    a = _fn("node_tokens", Abs("Node"), _Toks)(_node_term(I, node))
+    b = _fn("tokens_of", Abs("Val"), _Toks)(val_term(I, v))
+    from pyvc.types import BOOL
+
+    return SV(a != b, BOOL)
+
+
+from pyvc.specs import SPEC_NS
+
+SPEC_NS.update({"code_of": s_code_of, "tokens_differ": s_tokens_differ})
+R.DEFAULT_POLICIES.update({
+    "inline_snapshot._utils.value_to_token": p_value_to_token,
+    "SourceFile._token_of_node": p_token_of_node,
+    "SourceFile._token_to_code": p_token_to_code,
+    "SourceFile._value_to_code": "inline",
+    "GenericValue._file": "inline",
+})
